@@ -48,6 +48,17 @@ func RSAKeys() []*rsa.PrivateKey {
 		if len(rsaKeys) < 4 {
 			panic("RSA fixtures missing under " + core.VerifDir() + "/fixtures")
 		}
+		// one key with three prime factors (PKCS#1 with otherPrimeInfos), appended last so that the indices of the
+		// two-prime fixtures stay what they were
+		if b, err := os.ReadFile(filepath.Join(core.VerifDir(), "fixtures", "multiprime3-rsa2048.pem")); err == nil {
+			blk, _ := pem.Decode(b)
+			mk, err := x509.ParsePKCS1PrivateKey(blk.Bytes)
+			if err != nil {
+				panic(err)
+			}
+			mk.Precompute()
+			rsaKeys = append(rsaKeys, mk)
+		}
 	})
 	return rsaKeys
 }
